@@ -14,6 +14,7 @@ the reply to its own request; the socket log is a sequence of complete send/rece
 pairs; session sequence numbers strictly increase in send order (32-bit wrap
 0xffffffff -> 1 excepted); no deadlock, no exception.
 """
+import hashlib
 import json
 
 from . import common as C
@@ -100,6 +101,27 @@ def judge(cfg, obs):
                               'session sequence numbers on the wire not strictly increasing: %s' % seqs))
                 break
             prev = x
+    # every datagram is well-formed by itself: its auth code is computed over exactly the
+    # sequence number, session id and payload it carries (an exchange assembled outside the
+    # lock can mix the values of two requests)
+    pw = S.PASSWORD.encode().ljust(16, b'\x00')
+    for e in wire:
+        if e[0] != 'tx' or len(e) < 9:
+            continue
+        d = e[8]
+        if d['auth'] == 2:
+            exp = hashlib.md5(pw + bytes.fromhex(d['raw_sid']) + bytes.fromhex(d['msg'])
+                              + bytes.fromhex(d['raw_seq']) + pw).hexdigest()
+        elif d['auth'] == 4:
+            exp = pw.hex()
+        else:
+            continue
+        if d['authcode'] != exp:
+            fails.append(('c14:datagram-auth-code',
+                          'exchange assembled outside the lock: datagram %d (thread %d, session seq %d) carries an '
+                          'authentication code that is not the one over its own sequence number / session id / payload '
+                          '(got %s, expected %s)' % (e[7], e[1], e[3], d['authcode'], exp)))
+            break
     # own reply
     sent, got = {}, {}
     for e in wire:
@@ -247,10 +269,10 @@ def configs(quick):
         # wire-identical requests (duplicate rq_seq possible), all to the BMC address 0x20
         ('2x1', {'threads': [raw(GDI), ka(1)], 'nsn0': 0, 's0': 5, 'auth': 0}),
         # another responder address (0x82) and another command than the keep-alive's
-        ('2x1-targets', {'threads': [raw(SEL, target=0x82), ka(1)], 'nsn0': 63, 's0': 5, 'auth': 0}),
-        ('2x2-wrap', {'threads': [raw(GDI, GDI), ka(2)], 'nsn0': 62, 's0': WRAP - 2, 'auth': 0}),
+        ('2x1-targets', {'threads': [raw(SEL, target=0x82), ka(1)], 'nsn0': 63, 's0': 5, 'auth': 2}),   # MD5 session
+        ('2x2-wrap', {'threads': [raw(GDI, GDI), ka(2)], 'nsn0': 62, 's0': WRAP - 2, 'auth': 2}),      # MD5 session
         ('2x(2,1)-mixed', {'threads': [raw(SEL, GDI, target=0x82), ka(1)], 'nsn0': 63, 's0': 1000, 'auth': 4}),
-        ('3x1', {'threads': [raw(SEL, target=0x82), msg(1), ka(1)], 'nsn0': 63, 's0': WRAP - 1, 'auth': 0}),
+        ('3x1', {'threads': [raw(SEL, target=0x82), msg(1), ka(1)], 'nsn0': 63, 's0': WRAP - 1, 'auth': 2}),   # MD5 session
         ('3x1-same', {'threads': [raw(GDI), msg(1), ka(1)], 'nsn0': 63, 's0': WRAP - 1, 'auth': 0,
                       'quick_bound': 1}),      # identical requests; full bound in the thorough tier
         # the BMC sends an unrelated frame (stale rq_seq) before the reply to the listed datagrams;
@@ -276,6 +298,7 @@ def run(ctx):
     res = C.Result(model_map=MODEL_MAP)
     D = C.Distinct()
     terms, meta, seen_terms = [], [], set()
+    unlocked_mismatch = []
     fails = {}
     hist = {}
     nruns = 0
@@ -308,6 +331,10 @@ def run(ctx):
                             'expected': 'complete non-interleaved send/receive pairs; strictly increasing session '
                                         'sequence numbers; every request returns the payload of the reply to its '
                                         'own datagram'})
+        if obs.get('unlocked_session_accesses') and not unlocked_mismatch:
+            unlocked_mismatch.append({'case': 'Session.sequence_number accessed by a thread holding no lock (%d accesses); '
+                                              'the model packs under the lock' % obs['unlocked_session_accesses'],
+                                      'config': name, 'choices': obs['taken'][:80]})
         t = term(cfg, obs)
         if t not in seen_terms:
             seen_terms.add(t)
@@ -341,13 +368,14 @@ def run(ctx):
         name, cfg = cfgs[rng.randrange(len(cfgs))]
         cfg = {kk: v for kk, v in cfg.items() if kk != 'quick_bound'}
         cfg['nsn0'] = rng.choice([0, 1, 31, 62, 63])
+        cfg['auth'] = rng.choice([0, 2, 2, 4])
         cfg['s0'] = rng.choice([0, 1, 5, 123456, WRAP - 3, WRAP - 1, WRAP])
         nt = len(cfg['threads'])
         ch = random_choices(rng, nt, rng.choice([40, 150, 400, 1200]), rng.choice([0.02, 0.05, 0.15, 0.4]))
         obs = S.run_schedule(cfg, ch, fine=True)
         consider(name + '/line', cfg, obs, True, 'random, source-line granularity')
     failing, errors = C.coq_cases('C14', 'Corr.C14 Model.Threads', terms)
-    res.mismatches = tie_mismatch + [{'case': meta[i], 'term': terms[i][:1500]} for i in failing[:20]]
+    res.mismatches = tie_mismatch + unlocked_mismatch + [{'case': meta[i], 'term': terms[i][:1500]} for i in failing[:20]]
     res.corr_errors = errors
     res.evaluations = nruns
     res.distinct_nontrivial = D.distinct
